@@ -8,19 +8,19 @@ Definition subset (a b : list msg) : bool := forallb (fun x => existsb (String.e
 
 (* the message-level expression of <start>: of the grammar as it is (keep = None), or of the grammar sliced to the parties in keep
    (computed by the slicing model from the UNSLICED rules).  None = not supported; Some None = <start> itself is sliced away *)
-Definition start_re (rules : list (string * rhs)) (keep : option (list string)) : option (option mre) :=
+Definition start_re (rules : list (string * rhs)) (keep : option (bool * list string)) : option (option mre) :=
   match keep with
   | None => option_map Some (inline 60 rules (Ref "<start>"%string))
-  | Some k => islice 60 (visible k) rules (Ref "<start>"%string)
+  | Some k => islice 60 (vis_mode k) rules (Ref "<start>"%string)
   end.
 
 (* 1 = the model, too, slices <start> away *)
-Definition c19_removed (c : list (string * rhs) * list string) : nat :=
+Definition c19_removed (c : list (string * rhs) * (bool * list string)) : nat :=
   match start_re (fst c) (Some (snd c)) with Some None => 1 | None => 5 | _ => 0 end.
 
 (* (rules of the non-message nonterminals, history, options offered by the implementation, implementation says complete)
    1 = agrees; 0 = the option sets differ (3 = the implementation offers a proper part of them); 2 = the completeness verdict differs; 5 = grammar not supported by the model (recursive / terminal outside a message) *)
-Definition c19_eval (c : list (string * rhs) * option (list string) * list msg * list msg * bool) : nat :=
+Definition c19_eval (c : list (string * rhs) * option (bool * list string) * list msg * list msg * bool) : nat :=
   let '(rules, keep, h, opts, complete) := c in
   match start_re rules keep with
   | None => 5
@@ -54,7 +54,7 @@ Fixpoint rename_re (tab : list (msg * msg)) (r : mre) : mre :=
   end.
 
 (* the history is taken as labelled in the tree; the model's continuation set and the offered set are compared modulo [tab] *)
-Definition c19_eval_proj (c : list (string * rhs) * option (list string) * list msg * list msg * bool * list (msg * msg)) : nat :=
+Definition c19_eval_proj (c : list (string * rhs) * option (bool * list string) * list msg * list msg * bool * list (msg * msg)) : nat :=
   let '(rules, keep, h, opts, complete, tab) := c in
   match start_re rules keep with
   | None => 5
